@@ -146,10 +146,11 @@ func (e *Error) Error() error {
 	return errors.New(e.String())
 }
 
-func FromError(err error, line uint, absPath, origin string, args ...any) *Error {
+func FromError(err error, line uint, absPath, origin string, _ ...any) *Error {
 	if err == nil {
 		return nil
 	}
 
-	return New(line, absPath, origin, err.Error(), args...)
+	// the text of err is not a format: a "%" in it (a file name) stays as it is
+	return New(line, absPath, origin, "%s", err.Error())
 }
